@@ -195,7 +195,14 @@ def text_token(rng, pool):
         # the parts happen to join into something tag- or reference-shaped: keep the words, drop what makes the shape
         text = cc.passed_through(text).replace("<", "< ").replace("&", "& ").replace("[[", "[").replace("]]", "]")
     elem = rng.choice(["mtext", "mtext", "mtext", "mi", "mn", "mo", "ms"])
-    return gen.N(elem, text=text)
+    tok = gen.N(elem, text=text)
+    if elem in ("mi", "mtext") and rng.random() < 0.12:
+        # marked as a unit the two documented ways (the unit rules speak known units by table and anything else by its text)
+        if rng.random() < 0.5:
+            tok.attrs["intent"] = ":unit"
+        else:
+            tok.attrs["class"] = "MathML-unit"
+    return tok
 
 
 def text_tree(rng, pool):
